@@ -2,6 +2,8 @@ package rules
 
 import (
 	"fmt"
+	"go/types"
+	"strings"
 
 	"golang.org/x/tools/go/ssa"
 
@@ -141,4 +143,159 @@ func c18Serialised(c *Ctx, getters []*ssa.Function) {
 		}
 		c.Check(bad == "", "identity-generation-serialised", shortFn(gt), p.Pos(gt.Pos()), fmt.Sprintf("only called from construction code or under a lock (%d call chains examined)", n), "the load-or-generate-then-store of this identity is "+bad+": two connections arriving together on a fresh data directory both generate and both store, leaving a key that does not match the stored certificate or an identity that differs from the one already shown to a client")
 	}
+}
+
+// c18OptionOrder: server.New applies its options in slice order, and an option closure works on the Honeytrap as the
+// options before it left it. WithToken computes the token path from h.dataDir when it is applied, WithDataDir is what
+// sets that field: wherever a list of options is built, an option that reads a field at apply time must not be put into
+// the list before an option that writes it. With the token option first, the token is read from and written to
+// "./token" in the working directory, so a restart on the same data directory from another directory mints a new token.
+func c18OptionOrder(c *Ctx) {
+	p := c.P
+	const rule = "option-order"
+	ht := p.Type("server", "Honeytrap")
+	if !c.Anchor(ht != nil, rule, "server.Honeytrap") {
+		return
+	}
+	// option closures of a constructor value: follow the call to its returned closures
+	var closuresOf func(v ssa.Value, depth int) []*ssa.Function
+	closuresOf = func(v ssa.Value, depth int) []*ssa.Function {
+		var out []*ssa.Function
+		for _, lf := range leaves(v) {
+			switch x := lf.(type) {
+			case *ssa.MakeClosure:
+				if f, ok := x.Fn.(*ssa.Function); ok {
+					out = append(out, f)
+				}
+			case *ssa.Function:
+				out = append(out, x)
+			case *ssa.Extract:
+				if call, ok := x.Tuple.(*ssa.Call); ok && depth < 3 {
+					if f := call.Call.StaticCallee(); f != nil && InRepo(f) && f.Blocks != nil {
+						for _, r := range Returns(f) {
+							if x.Index < len(RetVals(r)) {
+								out = append(out, closuresOf(RetVals(r)[x.Index], depth+1)...)
+							}
+						}
+					}
+				}
+			case *ssa.Call:
+				if f := x.Call.StaticCallee(); f != nil && InRepo(f) && f.Blocks != nil && depth < 3 {
+					for _, r := range Returns(f) {
+						if len(RetVals(r)) >= 1 {
+							out = append(out, closuresOf(RetVals(r)[0], depth+1)...)
+						}
+					}
+				}
+			}
+		}
+		return out
+	}
+	// fields of Honeytrap an option closure reads / writes when applied (through its *Honeytrap parameter)
+	access := func(cl *ssa.Function) (reads, writes map[string]bool) {
+		reads, writes = map[string]bool{}, map[string]bool{}
+		fns := append([]*ssa.Function{cl}, Anon(cl)...)
+		for _, f := range fns {
+			for _, b := range f.Blocks {
+				for _, in := range b.Instrs {
+					fa, ok := in.(*ssa.FieldAddr)
+					if !ok || NamedOf(fa.X.Type()) != ht {
+						continue
+					}
+					name := fieldNameOf(fa)
+					for _, r := range *fa.Referrers() {
+						switch y := r.(type) {
+						case *ssa.Store:
+							if y.Addr == ssa.Value(fa) {
+								writes[name] = true
+							}
+						case *ssa.UnOp:
+							reads[name] = true
+						}
+					}
+				}
+			}
+		}
+		return
+	}
+	optT := p.Type("server", "OptionFn")
+	isOpt := func(t types.Type) bool {
+		if optT != nil && NamedOf(t) == optT {
+			return true
+		}
+		return false
+	}
+	type site struct {
+		at     ssa.Instruction
+		label  string
+		reads  map[string]bool
+		writes map[string]bool
+	}
+	nLists, nPairs := 0, 0
+	for _, fn := range p.Funcs() {
+		if fn.Blocks == nil || !InRepo(fn) || strings.HasSuffix(p.Fset.Position(fn.Pos()).Filename, "_test.go") {
+			continue
+		}
+		// does this function hand a list of options to server.New?
+		builds := false
+		for _, call := range Calls(fn) {
+			if f := call.Common().StaticCallee(); f != nil && FuncIs(f, ModPath+"/server", "New") {
+				builds = true
+			}
+		}
+		if !builds {
+			continue
+		}
+		var sites []site
+		add := func(v ssa.Value, at ssa.Instruction) {
+			if !isOpt(v.Type()) {
+				return
+			}
+			s := site{at: at, label: RenderN(v, 2), reads: map[string]bool{}, writes: map[string]bool{}}
+			for _, cl := range closuresOf(v, 0) {
+				r, w := access(cl)
+				for k := range r {
+					s.reads[k] = true
+				}
+				for k := range w {
+					s.writes[k] = true
+				}
+			}
+			sites = append(sites, s)
+		}
+		for _, b := range fn.Blocks {
+			for _, in := range b.Instrs {
+				switch x := in.(type) {
+				case *ssa.Store:
+					// element of a slice literal / varargs array
+					if ia, ok := x.Addr.(*ssa.IndexAddr); ok {
+						_ = ia
+						add(x.Val, x)
+					}
+				}
+			}
+		}
+		if len(sites) == 0 {
+			continue
+		}
+		nLists++
+		// order of the sites: a store into the varargs array of an append happens right before that append, so
+		// instruction order along dominance is the list order
+		for _, r := range sites {
+			for f := range r.reads {
+				for _, w := range sites {
+					if w.at == r.at || !w.writes[f] || r.writes[f] {
+						continue
+					}
+					nPairs++
+					key := fmt.Sprintf("%s: %s reads .%s, %s writes it", shortFn(fn), r.label, f, w.label)
+					c.Check(!before(r.at, w.at), rule, key, p.InstrPos(r.at), "the writer is in the list before the reader",
+						"the option "+r.label+" is put into the list before "+w.label+" ("+p.InstrPos(w.at)+"), but it reads Honeytrap."+f+" when applied and the later option is what sets it: it works on the zero value (for the token: the path \"token\" in the working directory instead of <data dir>/token, so a restart from another directory gets a new token)")
+				}
+			}
+		}
+	}
+	c.Check(nLists >= 1, rule, "option lists found", "-", fmt.Sprint(nLists), "no function building an option list for server.New found")
+	c.Floor(rule, 1, "WithToken reads dataDir, WithDataDir writes it")
+	_ = nPairs
 }
